@@ -24,6 +24,8 @@ theorem range_eq (h : Hex) (w : h.WF) (s e : Nat) : h.range s e = sliceRange h.t
 theorem rangeFrom_eq (h : Hex) (w : h.WF) (s : Nat) : h.rangeFrom s = sliceRange h.toBytes s h.toBytes.length := Hx.rangeFrom_eq h w s
 theorem rangeFull_eq (h : Hex) (w : h.WF) : h.rangeFull = some h.toBytes := Hx.rangeFull_eq h w
 theorem rangeIncl_eq (h : Hex) (w : h.WF) (s e : Nat) : h.rangeIncl s e = sliceIncl h.toBytes s e := Hx.rangeIncl_eq h w s e
+/-- … also for a `RangeInclusive` value that was iterated to its end (flag `exhausted`: the empty slice at `e + 1`) -/
+theorem rangeInclX_eq (h : Hex) (w : h.WF) (e : Nat) : h.rangeInclX e = sliceInclX h.toBytes e := Hx.rangeInclX_eq h w e
 theorem rangeTo_eq (h : Hex) (w : h.WF) (e : Nat) : h.rangeTo e = sliceRange h.toBytes 0 e := Hx.rangeTo_eq h w e
 theorem rangeToIncl_eq (h : Hex) (w : h.WF) (e : Nat) : h.rangeToIncl e = sliceIncl h.toBytes 0 e := Hx.rangeToIncl_eq h w e
 
